@@ -233,6 +233,7 @@ func ruleC05(c *Ctx, r *Report) {
 	// ---- R2 selection
 	r.Floor("C05-R2", 7, "five string classes + number + boolean")
 	sf := ph.scalarFn
+	scalarStepMemberPathRule(c, r, p, sf, "C05-R2")
 	classesSeen := map[string]bool{}
 	for _, call := range callsIn(sf, func(k string, cc *ssa.Call) bool { return cc.Call.StaticCallee() == ph.choke }) {
 		atoms := p.atomsAt(call.Block())
@@ -325,6 +326,7 @@ func ruleC05(c *Ctx, r *Report) {
 	r.Floor("C05-R3", 2, "stores of the replacement global + the flag wire")
 	if an := c.anchors(); requireAnchors(r, an, "C05-R3", "redact") {
 		flagWireRule(c, r, an, "C05-R3", []flagWire{{"replacement", "SetRedactedString", "redactedString"}})
+		flagBinderRule(c, r, "C05-R3", "replacement")
 	}
 	if g := c.GlobalByRole("redactedString"); g != nil {
 		for _, f := range c.SortedFuncs() {
@@ -816,5 +818,93 @@ func wrapperArmsCompleteRule(c *Ctx, r *Report, p *Prov, ph *placeholders, rule 
 		r.Check(len(bad) == 0, rule, construct, c.InstrPos(call),
 			"every path below the key-context test yields the "+class+" placeholder: the class is decided by key context and string type alone",
 			"below the key-context test of this class some paths yield something else (a content test splits the class; on a second pass the first pass's output can change): "+strings.Join(bad, "; "))
+	}
+}
+
+// scalarStepMemberPathRule (C05-R2 / C19-R1 / C14-R2): the scalar step chooses a leaf's class
+// ($date, $oid, $binary.base64) from the LAST elements of the key path it is given, and the
+// selective decision from all of them. When the value handed to it is the member el.Value of a
+// document being iterated, the path that goes with it must therefore end with that member's own
+// key: `append(<path>, el.Key)` (directly or through a local). The enclosing operator's path -
+// one element short - makes the payload under {$binary:{base64:...}} an ordinary string and the
+// instant under {$date:...} too.
+func scalarStepMemberPathRule(c *Ctx, r *Report, p *Prov, sf *ssa.Function, rule string) {
+	if sf == nil {
+		return
+	}
+	var pathIdx, valIdx = -1, -1
+	for i, prm := range sf.Params {
+		if isStringSliceT(prm.Type()) && pathIdx < 0 {
+			pathIdx = i
+		}
+		if isEmptyInterface(prm.Type()) && valIdx < 0 {
+			valIdx = i
+		}
+	}
+	if pathIdx < 0 || valIdx < 0 {
+		r.Undecided(rule, sf.Name()+":member-path", c.Pos(sf.Pos()), "the scalar step has no (key path, value) parameters")
+		return
+	}
+	// lastAppended: the value appended last to build path v
+	var lastAppended func(v ssa.Value, depth int) []ssa.Value
+	lastAppended = func(v ssa.Value, depth int) []ssa.Value {
+		v = canon(v)
+		if depth > 6 {
+			return nil
+		}
+		switch x := v.(type) {
+		case *ssa.Call:
+			if calleeKey(&x.Call) == "builtin append" && len(x.Call.Args) == 2 {
+				vs := varargValues(x.Call.Args[1])
+				if len(vs) >= 1 {
+					return []ssa.Value{vs[len(vs)-1]}
+				}
+			}
+		case *ssa.Phi:
+			var out []ssa.Value
+			for _, e := range x.Edges {
+				l := lastAppended(e, depth+1)
+				if l == nil {
+					return nil
+				}
+				out = append(out, l...)
+			}
+			return out
+		}
+		return nil
+	}
+	n := 0
+	var fns []*ssa.Function
+	for f := range p.Zone {
+		fns = append(fns, f)
+	}
+	sort.Slice(fns, func(i, j int) bool { return fns[i].Name() < fns[j].Name() })
+	for _, f := range fns {
+		for _, call := range callsIn(f, func(k string, cc *ssa.Call) bool { return cc.Call.StaticCallee() == sf }) {
+			if len(call.Call.Args) <= pathIdx || len(call.Call.Args) <= valIdx {
+				continue
+			}
+			_, el, isMember := memberOfIteration(f, call.Call.Args[valIdx])
+			if !isMember {
+				continue
+			}
+			n++
+			construct := fmt.Sprintf("%s:scalar-step-path-ends-with-the-member-key#%d", f.Name(), n)
+			lasts := lastAppended(call.Call.Args[pathIdx], 0)
+			okAll := len(lasts) > 0
+			for _, lv := range lasts {
+				e2, name, isLoad := elemFieldLoad(peel(canon(lv)))
+				if !isLoad || name != "Key" || e2 != el {
+					okAll = false
+				}
+			}
+			r.Check(okAll, rule, construct, c.InstrPos(call),
+				"the path handed to the scalar step is append(<path>, el.Key) for the member el.Value it redacts",
+				"the scalar step is given a member el.Value of the document being walked, but the key path that goes with it does not end with that member's key: the class of the leaf ($date / $oid / $binary.base64: last path elements) and the selective decision are taken for its parent")
+		}
+	}
+	r.Analysed["scalar_step_member_calls"] = n
+	if n < 3 {
+		r.Bad(rule, "scalar-step-member-calls", "-", fmt.Sprintf("anchor lost: only %d calls of the scalar step with a document member (7 today)", n))
 	}
 }
